@@ -29,6 +29,8 @@ for f in sorted(glob.glob(V + "/sensitivity/C*.json")):
         own = re.findall(r"(C\d\d)=(red|green|inconclusive)", r)
         if any(v == "red" for _, v in own):
             red += 1
+        elif any(v == "inconclusive" for _, v in own):
+            greens.append("%s — INCONCLUSIVE run (%s)" % (name, notes[name] or "build or budget"))
         else:
             greens.append("%s — %s" % (name, notes[name] or "see section 9.3"))
     out.append("| %s | %d | %d | %s |" % (pid, len(notes), red, "; ".join(greens) if greens else "—"))
